@@ -86,7 +86,11 @@ def check_case(res, case):
         ls.s_to_c(); ls.c_prop(); ls.c_to_s()
         res.count('cases_with_history')
     W.assign(ws, ipos + spos, init, tt, fin)
-    ws.s_to_c(); ws.c_prop(); ws.c_to_s()
+    # initial, final, earliest and latest do not depend on the capture time: default (settled), in the middle of the activity, at 0.0
+    T = (None, 2.0, 0.0)[common.h64((case['nl'], case['caps'], 'T')) % 3]
+    ws.s_to_c(); ws.c_prop()
+    if T is None: ws.c_to_s()
+    else: ws.c_to_s(time=T); res.count('captures_at_finite_time')
     for k, pos in enumerate(ipos + spos):
         lsim.assign_codes(ls, pos, wsim.code8(init[k], fin[k]))
     ls.s_to_c(); ls.c_prop(); ls.c_to_s()
